@@ -70,6 +70,8 @@ def tokens_to_schedule(tokens: list) -> list:
             sch.append(("ev", "finish", bool(t[1])))
         elif k == "writefail":
             sch.append(("ev", "writefail", bool(t[1])))
+        elif k == "cancel_op":
+            sch.append(("ev", "cancel_op", t[1]))
         else:
             sch.append(("ev", *t))
         i += 1
